@@ -77,7 +77,13 @@ RULE = ("case = one history: [different per-run prefix: foreign numpy/random see
         "include_extras), fit with an ObservableEvaluator callback / scheduler / time) at least once to its first object "
         "(kind cycling pos/cplx/dens), every third one builds an unseeded object before the seeding (parameters compared "
         "from slot b=1); non-trivial iff it contains a fit and (a statistics call or a save/load pair or >= 2 state kinds) "
-        "and runs 1 and 2 each contain >= 2 foreign operations; distinct by hash of the three op lists")
+        "and runs 1 and 2 each contain >= 2 foreign operations; distinct by hash of the three op lists.  ARGUMENT FORMS: every boolean option of "
+        "every public call (set_random_seed cpu/gpu/quiet, constructors gpu, sample/statistics overwrite, fit time/progbar, evaluator verbose, pi/pi_grad "
+        "expand/phase, include_extras, observable absolute/periodic_bcs) is handed over as bool singleton / 0,1 / numpy.bool_ / numpy comparison / 0-d "
+        "array / 0-d tensor, every integer option (seed over the whole accepted range, num_visible/num_hidden/num_aux, k, num_samples, num_chains, burn_in, "
+        "steps, epochs, pos/neg_batch_size, starting_epoch, period, size, num) as Python int / numpy.int64,int32,intp,uint8,(uint64) / 0-d integer array / "
+        "0-d integer tensor (only the forms the clean tree accepts for that option), by keyword or as a random positional prefix of the documented order; "
+        "the objects are rebuilt in the runner process from two per-operation seeds (fseed, iseed) stored in the case, identically in all runs and in a replay")
 
 SEED_LO, SEED_HI = -2 ** 63, 2 ** 64  # torch.manual_seed accepts LO <= s < HI (established on the clean tree, re-measured below)
 SEED_SPECIALS = [0, 1, 2 ** 31 - 1, 2 ** 31, 2 ** 32 - 1, 2 ** 32, 2 ** 40, 2 ** 63 - 1, 2 ** 63, 2 ** 64 - 1, -1, -2 ** 31, -2 ** 63]
@@ -167,6 +173,26 @@ def seed_op(rng, cpu=True):
     if rng.random() < 0.3:
         op["gpu"] = True  # no CUDA device in this process: must neither raise nor seed anything else
     return op
+
+
+# ---------------------------------------------------------------- argument forms (round 5, notes/C14.md "Argument-form sweep")
+# Operations whose public call takes boolean / integer options.  Each of them carries two seeds, "fseed" (qc.Flags) and "iseed" (qc.Ints),
+# drawn from the case generator's rng; the runner process rebuilds from them the OBJECTS it hands over (bool singleton / 0,1 / numpy.bool_ /
+# numpy comparison / 0-d array / 0-d tensor; Python int / numpy.int64,int32,intp,uint8 / 0-d integer array / 0-d integer tensor, for the seed
+# also numpy.uint64) and the positional prefix of the call.  The VALUES stay in the operation as plain JSON ints / bools (that is what the
+# Lean model is told).  An operation without the two keys is executed with plain Python values in the legacy layout.
+FORM_OPS = {"setSeed", "construct", "sample", "obsSample", "statistics", "fit", "eval", "gradient", "batchGradient", "rotate"}
+
+
+def assign_forms(rng, ops):
+    """give every operation with options its two form seeds (once: operations shared between the runs of a history keep theirs)"""
+    for o in ops:
+        if o["t"] in FORM_OPS and "fseed" not in o:
+            o["fseed"] = rng.randrange(2 ** 31)
+            o["iseed"] = rng.randrange(2 ** 31)
+            if o["t"] == "construct" and rng.random() < 0.2:
+                o["gpu"] = True  # no CUDA device in this process: a ResourceWarning, then the CPU; nothing else may change
+    return ops
 
 
 def alt_run(ops, seed_at):
@@ -274,7 +300,7 @@ def model_op(op, kinds):
     if t == "setSeed":
         return {"t": t, "s": op["s"], "cpu": op["cpu"]}  # `gpu` has no effect on a process without CUDA
     if t in ("burn", "reinit", "save", "load"):
-        return dict(op)
+        return {k: v for k, v in op.items() if k not in ("fseed", "iseed")}
     if t == "construct":
         return {"t": t, "kind": op["kind"], "n": op["n"], "h": op["h"], "a": op.get("a")}
     if t == "sample":
@@ -582,6 +608,7 @@ def gen_history(rng, idx):
         runs.append({"pre": pre, "body": interleave(rng, core)})
     ops = [runs[0]["pre"] + [main] + runs[0]["body"],
            runs[1]["pre"] + [main] + runs[1]["body"]]
+    assign_forms(rng, ops[0] + ops[1])  # (the library operations are the same objects in both lists; run 3 is derived below)
     ops.append(alt_run(ops[0], len(runs[0]["pre"])))
     return {"name": f"h{idx}", "runs": ops, "b": b, "seed_at": [len(runs[0]["pre"]), len(runs[1]["pre"]), len(runs[0]["pre"])]}
 
@@ -624,6 +651,7 @@ def gen_seed_sweep(rng, idx):
         runs.append({"pre": pre, "body": interleave(rng, core)})
     main = seed_op(rng)
     ops = [runs[0]["pre"] + [main] + runs[0]["body"], runs[1]["pre"] + [main] + runs[1]["body"]]
+    assign_forms(rng, ops[0] + ops[1])
     ops.append(alt_run(ops[0], len(runs[0]["pre"])))
     return {"name": f"sweep{idx}", "runs": ops, "b": 0, "seed_at": [3, 3, 3]}
 
@@ -662,6 +690,9 @@ def malformed_histories():
     body1 = core[:4] + [{"t": "ext", "what": "perturbPy", "m": 3}] + core[4:]
     body2 = core[:2] + [{"t": "ext", "what": "perturbNumpy", "m": 2}] + core[2:9] + [{"t": "ext", "what": "seedPy", "s": 5}] + core[9:]
     sd = {"t": "setSeed", "s": 1234, "cpu": True, "alt": 4321}
+    for i, o in enumerate([sd] + pre1 + pre2 + core):  # fixed form seeds (this history is not drawn from the rng)
+        if o["t"] in FORM_OPS:
+            o["fseed"], o["iseed"] = 7001 + 2 * i, 9001 + 2 * i
     return [{"name": "malformed", "runs": [pre1 + [sd] + body1, pre2 + [sd] + body2, alt_run(pre1 + [sd] + body1, len(pre1))], "b": 0,
              "seed_at": [len(pre1), len(pre2), len(pre1)]}]
 
@@ -733,6 +764,13 @@ def check_case(ctx, case, impl):
             ctx.count("fit_optimizer=" + o["optimizer"])
             ctx.count("fit_negB=" + ("default" if not o["negB"] else ("same" if o["negB"] == o["posB"] else "different")))
     ctx.count("histories")
+    for rec in impl[0]["records"]:  # the forms the runner process actually handed over (run 1)
+        for nm, form, pos in rec.get("forms", []):
+            ctx.count(f"arg {nm} given as {form}")
+            ctx.count(("flag_form=" if form in ("int", "np_bool", "np_cmp", "np_0d", "torch_0d") else "int_form=" if form != "py" else "form=") + form
+                      + (":positional" if pos else ":keyword"))
+        for call, p in rec.get("layout", []):
+            ctx.count(f"call {call} options handed over positionally: {p}")
 
     # ---------- per-run, per-operation observations
     for r in range(3):
